@@ -408,6 +408,7 @@ type targetInfo struct {
 	Dependencies map[string]string `json:"dependencies,omitempty"`
 	Data         string            `json:"stamp,omitempty"`
 	Rerun        bool              `json:"rerun,omitempty"`
+	Runs         uint64            `json:"runs,omitempty"`
 }
 
 func (proj *Project) targetInfoPath(l *label.Label) string {
